@@ -19,6 +19,10 @@ import ast
 from .model import src, AnalysisError, walk_stmts
 
 NONRAISING_CALLS = {"len", "isinstance", "callable", "hasattr", "id", "bool", "type", "repr"}
+NONMUTATING_METHODS = {"split", "rsplit", "splitlines", "strip", "rstrip", "lstrip", "lower", "upper", "find", "rfind", "startswith", "endswith",
+                       "join", "get", "count", "index", "format", "encode", "decode", "isdigit", "isalpha", "isspace", "keys", "values", "items",
+                       "copy", "replace", "ljust", "rjust", "total_seconds", "toordinal", "weekday", "isoweekday", "isocalendar", "timetuple",
+                       "utcoffset", "dst", "tzname", "date", "time", "strftime", "locked", "issubset", "difference", "union", "group", "match"}
 
 
 class Node(object):
@@ -515,6 +519,8 @@ class Facts(object):
             """names / attribute chains (re)bound or possibly mutated by node n"""
             ks = set()
             muts = set()
+            items = set()
+            self._items = items
             a = n.ast
             if n.kind == "for":
                 for t in ast.walk(a.target):
@@ -554,8 +560,10 @@ class Facts(object):
                         ks.add(x.id)
                     elif isinstance(x, ast.Attribute) and isinstance(x.ctx, (ast.Store, ast.Del)):
                         ks.add(src(x))
-                    elif isinstance(x, ast.Subscript) and isinstance(x.ctx, (ast.Store, ast.Del)):
+                    elif isinstance(x, ast.Subscript) and isinstance(x.ctx, ast.Del):
                         muts.add(src(x.value))
+                    elif isinstance(x, ast.Subscript) and isinstance(x.ctx, ast.Store):
+                        items.add(src(x.value))     # item assignment: length unchanged
             # named expressions
             for x in ast.walk(a):
                 if isinstance(x, ast.NamedExpr):
@@ -565,19 +573,24 @@ class Facts(object):
                     if isinstance(f, ast.Name) and f.id in NONRAISING_CALLS | {"int", "float", "str", "abs", "min", "max", "divmod", "range", "sorted", "tuple", "set", "list", "sum", "any", "all", "ord"}:
                         continue
                     if isinstance(f, ast.Attribute):
+                        if f.attr in NONMUTATING_METHODS:
+                            continue
                         muts.add(src(f.value))      # receiver may be mutated
                     for arg in list(x.args) + [k.value for k in x.keywords]:
                         if isinstance(arg, (ast.Name, ast.Attribute)):
                             muts.add(src(arg))
+            self._items_of[n.id] = items
             return ks, muts
 
+        self._items_of = {}
         self._kill_cache = {}
 
         def transfer(n, s):
             if n.id not in self._kill_cache:
                 self._kill_cache[n.id] = killed_keys(n)
             ks, muts = self._kill_cache[n.id]
-            if not ks and not muts:
+            items = self._items_of.get(n.id, ())
+            if not ks and not muts and not items:
                 return s
             out = set()
             for f in s:
@@ -592,6 +605,9 @@ class Facts(object):
                     for mk in muts:
                         # mutation of object mk invalidates facts about mk.attr / len(mk) / mk[...]
                         if d.startswith(mk + ".") or (d == mk and (("len(%s)" % mk) in f[0] or ("%s[" % mk) in f[0] or (" in %s" % mk) in f[0])):
+                            dead = True
+                    for mk in items:
+                        if d == mk and (("%s[" % mk) in f[0] or (" in %s" % mk) in f[0]):
                             dead = True
                 if not dead:
                     out.add(f)
